@@ -1141,6 +1141,9 @@ func (c *Checker) checkMethod(
 	c.catchScopes = nil
 	prevHasDefer := c.hasDefer()
 	c.setHasDefer(false)
+	// the enclosing method's context must survive the check of a closure literal in its body
+	prevReturnType := c.returnType
+	prevThrowType := c.throwType
 
 	name := checkedMethod.Name
 	prevMode := c.mode
@@ -1315,11 +1318,12 @@ func (c *Checker) checkMethod(
 
 	checkedMethod.SetHasDefer(c.hasDefer())
 
-	c.setHasDefer(prevHasDefer)
-	c.returnType = nil
-	c.throwType = nil
+	c.returnType = prevReturnType
+	c.throwType = prevThrowType
 	c.mode = prevMode
 	c.flags = prevFlags
+	// hasDefer is one of the flags: restore it after them
+	c.setHasDefer(prevHasDefer)
 	c.catchScopes = prevCatchScopes
 	return typedReturnTypeNode, typedThrowTypeNode
 }
